@@ -44,6 +44,17 @@ def num_of(v):
     return None
 
 
+def exact_of(v):
+    """the numeric value itself: an int stays an int"""
+    if isinstance(v, bool) or v is None:
+        return None
+    if isinstance(v, int):
+        return v
+    if isinstance(v, aglib.F):
+        return qast.bits2f(v.bits)
+    return None
+
+
 MISSING = object()
 
 
@@ -115,18 +126,21 @@ def aggregate(stage, rows):
                 row[col] = from_float(tot / len(nums)) if nums else None   # NaN prints as null
                 if isinstance(row[col], aglib.F) and qast.bits2f(row[col].bits) != qast.bits2f(row[col].bits):
                     row[col] = None
-            elif t == 'min':
-                m = float('inf')
-                for x in nums:
-                    if x < m:
-                        m = x
-                row[col] = from_float(m) if m not in (float('inf'), float('-inf')) and m == m else None
-            elif t == 'max':
-                m = float('-inf')
-                for x in nums:
-                    if x > m:
-                        m = x
-                row[col] = from_float(m) if m not in (float('inf'), float('-inf')) and m == m else None
+            elif t in ('min', 'max'):
+                # the extremum is one of the values, exactly (Python compares ints and floats by value); NaN is no candidate;
+                # an infinite extremum is reported as None
+                ex = [exact_of(r[c]) for r in g['rows'] if c in r and exact_of(r[c]) is not None]
+                ex = [x for x in ex if x == x]
+                if not ex:
+                    row[col] = None
+                else:
+                    m = min(ex) if t == 'min' else max(ex)
+                    if isinstance(m, float):
+                        row[col] = None if m in (float('inf'), float('-inf')) else from_float(m)
+                    else:
+                        # an integer wins; but an infinite float on the same side hides everything
+                        inf_side = float('-inf') if t == 'min' else float('inf')
+                        row[col] = None if any(isinstance(x, float) and x == inf_side for x in ex) else m
         out.append({k: (None if isinstance(v, aglib.F) and (qast.bits2f(v.bits) != qast.bits2f(v.bits) or abs(qast.bits2f(v.bits)) == float('inf')) else v)
                     for k, v in row.items()})
     return out
